@@ -34,7 +34,14 @@ BINOPS = {"add": operator.add, "sub": operator.sub, "mul": operator.mul, "floord
           "lt": operator.lt, "le": operator.le, "gt": operator.gt, "ge": operator.ge}
 SYM = {"add": "+", "sub": "-", "mul": "*", "floordiv": "//", "mod": "%", "and": "&", "or": "|", "xor": "^",
        "lshift": "<<", "rshift": ">>", "eq": "==", "ne": "!=", "lt": "<", "le": "<=", "gt": ">", "ge": ">="}
-UNOPS = ("invert", "int", "uint", "pyint", "index", "bool", "nbits", "clone")
+UNOPS = ("invert", "int", "uint", "pyint", "index", "bool", "nbits", "clone", "deepcopy")
+# `x op= y`: Bits defines no in-place arithmetic, Python falls back to the pure operator and rebinds the name
+# (`<<=` and `@=` are the non-blocking / blocking assignments, not shifts / matmul)
+IBINOPS = {"add": operator.iadd, "sub": operator.isub, "mul": operator.imul, "floordiv": operator.ifloordiv,
+           "mod": operator.imod, "and": operator.iand, "or": operator.ior, "xor": operator.ixor,
+           "rshift": operator.irshift}
+BITS_RESULT = set(BINOPS) | {"invert", "clone", "deepcopy", "getbit", "getslice", "concat", "zext", "sext", "trunc",
+                             "reduce_and", "reduce_or", "reduce_xor"}
 INT_RESULT = {"int", "uint", "pyint", "index", "nbits", "clog2"}
 BOOL_RESULT = {"bool", "hash_eq"}
 MUTATORS = {"new", "assign", "nbassign", "flip", "setbit", "setslice"}
@@ -122,6 +129,8 @@ def show(o):
         k = o.get("k")
         if k == "self":
             return "self"
+        if k == "obj":
+            return "v%d=Bits%s(%s)" % (o["id"], o.get("w", "?"), o.get("v", "?"))
         if k in ("bits", "ok"):
             v = dec_value(o)
             return "Bits%d(%s)" % (o["w"], hex(v) if abs(v) > 9 else v)
@@ -202,23 +211,49 @@ def api():
 
 
 class Env:
-    """one tracked object + the spelling used for constructing operands"""
+    """program variables 1, 2, ... each bound to its own real object (variable 1 = the tracked object
+    `self` of the single-object traces) + the spelling used for constructing operands"""
 
     def __init__(self, style="Bits", obj=None):
         self.style = style
-        self.obj = obj
+        self.vars = [obj]
+        self.tgt = 1          # the variable a mutator acts on / "new" binds
+        self.last = None      # the raw object returned by the last pure call (None unless it is a Bits)
         self.last_exc = None
+
+    @property
+    def obj(self):
+        return self.vars[0]
+
+    @obj.setter
+    def obj(self, o):
+        self.vars[0] = o
+
+    def get(self, i):
+        return self.vars[i - 1]
+
+    def bind(self, i, o):
+        while len(self.vars) < i:
+            self.vars.append(None)
+        self.vars[i - 1] = o
 
     def operand(self, o):
         if o["k"] == "self":
-            return self.obj
+            return self.vars[0]
+        if o["k"] == "obj":
+            return self.vars[o["id"] - 1]
         if o["k"] == "bits":
             return api().make(self.style, o["w"], unlimbs(o["d"]))
         return dec_value(o)
 
 
+UNBOUND = {"w": 0, "d": [], "nxt": {"some": False, "d": []}}
+
+
 def observe(obj):
     """projected state of a Bits object: width, value, pending value"""
+    if obj is None:
+        return copy.deepcopy(UNBOUND)
     try:
         nx = obj._next
         nxt = {"some": True, "d": limbs(int(nx), nl(obj.nbits)) if 0 <= int(nx) < (1 << obj.nbits)
@@ -255,14 +290,19 @@ def _encode_result(op, r):
     return {"k": "other:" + type(r).__name__, "neg": False, "w": 1, "d": [0]}
 
 
-def execute(env, op, refl, args):
+def execute(env, op, refl, args, ip=False):
     """Perform one call on the real API; return the encoded outcome (for "divmod" a pair).
-    Mutators act on env.obj."""
+    Mutators act on the object of variable env.tgt (default 1 = env.obj), "new" binds that variable.
+    ip: spell a forward binary operator `x op= y`.  env.last = the raw Bits object a pure call returned."""
     A = api()
+    env.last = None
     try:
         if op in BINOPS:
             x, y = env.operand(args[0]), env.operand(args[1])
-            r = BINOPS[op](y, x) if refl else BINOPS[op](x, y)
+            if ip and not refl and op in IBINOPS:
+                r = IBINOPS[op](x, y)
+            else:
+                r = BINOPS[op](y, x) if refl else BINOPS[op](x, y)
         elif op == "divmod":
             x, y = env.operand(args[0]), env.operand(args[1])
             outs = []
@@ -286,11 +326,11 @@ def execute(env, op, refl, args):
             r = bool(env.operand(args[0]))
         elif op == "nbits":
             r = env.operand(args[0]).nbits
-        elif op == "clone":
+        elif op in ("clone", "deepcopy"):
             x = env.operand(args[0])
-            r = x.clone()
+            r = x.clone() if op == "clone" else copy.deepcopy(x)
             if r is x:
-                r = "clone returned the same object"
+                r = "%s returned the same object" % op
         elif op == "hash_eq":
             r = hash(env.operand(args[0])) == hash(env.operand(args[1]))
         elif op == "getbit":
@@ -311,26 +351,28 @@ def execute(env, op, refl, args):
         elif op == "clog2":
             r = A.clog2(dec_value(args[0]))
         elif op == "new":
-            env.obj = A.make(env.style, args[0], env.operand(args[1]), bool(args[2]))
+            o = A.make(env.style, args[0], env.operand(args[1]), bool(args[2]))
+            env.last = o
+            env.bind(env.tgt, o)
             return dict(OUT_UNIT)
         elif op == "assign":
-            o = env.obj
+            o = env.get(env.tgt)
             o @= env.operand(args[0])
-            env.obj = o
+            env.bind(env.tgt, o)
             return dict(OUT_UNIT)
         elif op == "nbassign":
-            o = env.obj
+            o = env.get(env.tgt)
             o <<= env.operand(args[0])
-            env.obj = o
+            env.bind(env.tgt, o)
             return dict(OUT_UNIT)
         elif op == "flip":
-            env.obj._flip()
+            env.get(env.tgt)._flip()
             return dict(OUT_UNIT)
         elif op == "setbit":
-            env.obj[args[0]] = env.operand(args[1])
+            env.get(env.tgt)[args[0]] = env.operand(args[1])
             return dict(OUT_UNIT)
         elif op == "setslice":
-            env.obj[slice(unidx(args[0]), unidx(args[1]), unidx(args[2]))] = env.operand(args[3])
+            env.get(env.tgt)[slice(unidx(args[0]), unidx(args[1]), unidx(args[2]))] = env.operand(args[3])
             return dict(OUT_UNIT)
         else:
             raise MachineryError("unknown op %r" % op)
@@ -338,12 +380,18 @@ def execute(env, op, refl, args):
         raise
     except Exception as e:                      # noqa: BLE001 - the exception class is the observation
         return out_err(e)
+    if op in BITS_RESULT and isinstance(r, A.Bits):
+        env.last = r
     return _encode_result(op, r)
 
 
-def call_text(op, refl, args):
-    """Python-like rendering of a logged call"""
+def call_text(op, refl, args, tgt=None, ip=False):
+    """Python-like rendering of a logged call (tgt: the variable a mutator acts on, default `self`)"""
     a = [show(x) for x in args]
+    if tgt not in (None, 1):
+        return call_text(op, refl, args).replace("self", "v%d" % tgt, 1)
+    if ip and op in IBINOPS and not refl:
+        return "x = %s; x %s= %s" % (a[0], SYM[op], a[1])
     if op in BINOPS or op == "divmod":
         s = SYM.get(op, "//,%")
         return "%s %s %s" % ((a[1], s, a[0]) if refl else (a[0], s, a[1]))
@@ -398,6 +446,8 @@ def violation_key(op, refl, args, clause, out, selfw=None):
     for x in args:
         if isinstance(x, dict) and x.get("k") == "self":
             a.append("self%s" % ("" if selfw is None else selfw))
+        elif isinstance(x, dict) and x.get("k") == "obj":
+            a.append("Bits%s(%s)" % (x.get("w", "?"), x.get("v", "?")))
         else:
             a.append(show(x))
     body = ",".join(a)
@@ -624,34 +674,427 @@ def graph_walk(res, ws, vws, imax, acts, scratch_dir):
 
 
 # --------------------------------------------------------------------------------------
+# spec -> code: behaviours of BitsHeap (object identity) replayed on real objects
+# --------------------------------------------------------------------------------------
+
+ALL_OPS = list(BINOPS)
+HEAP_ACTS = ("new", "newfrom", "un", "bin", "binint", "getbit", "getslice", "concat", "ext", "assign", "nbassign",
+             "flip", "setbit", "setslice")
+HEAP_ACTIONS = ("New", "NewFrom", "Un", "Bin", "BinInt", "GetBit", "GetSlice", "Concat", "Ext", "Assign", "AssignInt",
+                "NbAssign", "NbAssignInt", "Flip", "SetBit", "SetBitInt", "SetSlice")
+HEAP_PROPS = ("Frame", "ErrorsChangeNothing", "ResultIsOutcome", "NewHasNoPending", "WidthStable", "NbInvisible",
+              "NatSemantics")
+
+
+def heap_cfg(nvars, ws, wmax, ineg, ipos, ops, iops, props=True, view=True):
+    q = lambda xs: ",".join('"%s"' % x for x in xs)      # noqa: E731
+    s = ("SPECIFICATION Spec\nCONSTANTS NVars = %d\n Ws = {%s}\n WMax = %d\n INeg = %d\n IPos = %d\n Ops = {%s}\n"
+         " IOps = {%s}\n Acts = {%s}\n" % (nvars, ",".join(map(str, ws)), wmax, ineg, ipos, q(ops), q(iops), q(HEAP_ACTS)))
+    if props:
+        s += "INVARIANT TypeOK\n" + "".join("PROPERTY %s\n" % p for p in HEAP_PROPS)
+    if view:
+        s += "VIEW HeapView\n"
+    return s + "CHECK_DEADLOCK FALSE\n"
+
+
+def _obj(i):
+    return {"k": "obj", "id": i}
+
+
+def heap_call(name, a):
+    """A BitsHeap action (name, args without the trailing `raises` flag) as a Recorder.call: dict(op, args, ...)"""
+    if name == "New":
+        return dict(op="new", args=[a[1], enc_int(a[2]), False], rid=a[0])
+    if name == "NewFrom":
+        return dict(op="new", args=[a[2], _obj(a[1]), False], rid=a[0])
+    if name == "Un":
+        return dict(op=a[0], args=[_obj(a[2])], rid=a[1])
+    if name == "Bin":
+        return dict(op=a[0], args=[_obj(a[2]), _obj(a[3])], rid=a[1])
+    if name == "BinInt":
+        return dict(op=a[0], refl=bool(a[1]), args=[_obj(a[3]), enc_int(a[4])], rid=a[2])
+    if name == "GetBit":
+        return dict(op="getbit", args=[_obj(a[1]), a[2]], rid=a[0])
+    if name == "GetSlice":
+        return dict(op="getslice", args=[_obj(a[1]), [a[2]], [a[3]], []], rid=a[0])
+    if name == "Concat":
+        return dict(op="concat", args=[_obj(a[1]), _obj(a[2])], rid=a[0])
+    if name == "Ext":
+        return dict(op=a[0], args=[_obj(a[2]), a[3]], rid=a[1])
+    if name == "Assign":
+        return dict(op="assign", args=[_obj(a[1])], tgt=a[0])
+    if name == "AssignInt":
+        return dict(op="assign", args=[enc_int(a[1])], tgt=a[0])
+    if name == "NbAssign":
+        return dict(op="nbassign", args=[_obj(a[1])], tgt=a[0])
+    if name == "NbAssignInt":
+        return dict(op="nbassign", args=[enc_int(a[1])], tgt=a[0])
+    if name == "Flip":
+        return dict(op="flip", args=[], tgt=a[0])
+    if name == "SetBit":
+        return dict(op="setbit", args=[a[1], _obj(a[2])], tgt=a[0])
+    if name == "SetBitInt":
+        return dict(op="setbit", args=[a[1], enc_int(a[2])], tgt=a[0])
+    if name == "SetSlice":
+        return dict(op="setslice", args=[[a[1]], [a[2]], [], _obj(a[3])], tgt=a[0])
+    raise MachineryError("unknown BitsHeap action %s" % name)
+
+
+def heap_text(h):
+    return ", ".join("v%d=%s" % (i + 1, show(x)) for i, x in enumerate(h) if x["w"])
+
+
+class HeapReal:
+    """Real objects driven by BitsHeap actions.  Every object is the one the real operation returned."""
+
+    def __init__(self, heap, nstyle=0):
+        """start from the abstract heap `heap` (fresh objects built by the constructors)"""
+        self.n = nstyle
+        self.rec = None
+        self.reset(heap)
+
+    def reset(self, heap):
+        w1 = heap[0]["w"]
+        self.rec = Recorder(w1, STYLES[self.n % 3], heap=True)
+        env = self.rec.env
+        for i, stt in enumerate(heap):
+            env.bind(i + 1, state_obj(env, stt) if stt["w"] else None)
+
+    def step(self, name, args):
+        """-> (raised?, alias, observed heap, event)"""
+        c = heap_call(name, args)
+        rec = self.rec
+        self.n += 1
+        rec.env.style = STYLES[self.n % 3]
+        for x in c["args"]:                          # annotate the operands for messages / keys
+            if isinstance(x, dict) and x.get("k") == "obj":
+                o = rec.var(x["id"])
+                x["w"], x["v"] = o.nbits, hex(int(o))
+        e = rec.call(c["op"], c["args"], refl=c.get("refl", False), rid=c.get("rid", 0), tgt=c.get("tgt", 1))
+        rec.ev = []                                  # nothing is kept: the comparison happens here
+        return e["out"]["k"] == "err", e.get("alias", 0), e["heap"], e
+
+
+def _same_heap(a, b):
+    n = max(len(a), len(b))
+    a = list(a) + [UNBOUND] * (n - len(a))
+    b = list(b) + [UNBOUND] * (n - len(b))
+    return all(same_state(x, y) for x, y in zip(a, b))
+
+
+def _heap_violation(res, name, args, src, exp, raised, alias, got, e, where):
+    """exp: list of (raises?, heap) the specification admits"""
+    tgt = heap_call(name, args)
+    t = tgt.get("rid") or tgt.get("tgt") or 0
+    if alias:
+        clause = "result-aliases-live-object"
+    elif all(x[0] != raised for x in exp):
+        clause = "unexpected-error" if raised else "missing-error"
+    else:
+        cand = [h for (r, h) in exp if r == raised]
+        others = any(all(same_state(x, y) for i, (x, y) in enumerate(zip(h, list(got) + [UNBOUND] * len(h))) if i + 1 != t)
+                     for h in cand)
+        clause = "wrong-result" if others else "changed-another-object"
+    text = call_text(e["op"], e["refl"], e["args"], e.get("tgt", 1))
+    if e.get("rid"):
+        text = "v%d = %s" % (e["rid"], text)
+    key = "heap:%s:%s:%s" % (text, clause, heap_text(src))
+    what = ("objects %s; %s: BitsHeap admits %s; pymtl3 %s leaving %s" %
+            (heap_text(src), text, " or ".join(("an error, " if r else "") + heap_text(h) for r, h in exp),
+             show(e["out"]), heap_text(got)))
+    if alias:
+        what += "; the returned object IS the live object of v%d (made by `%s`)" % (alias, e.get("alias_origin", "?"))
+    res.violation(key, "%s [%s, %s]" % (what, clause, where), {"action": name, "args": list(args), "before": src,
+                                                               "admitted": exp, "observed": got, "clause": clause})
+
+
+def heap_graph_tlc(cfgargs, scratch_dir, tag):
+    """model-check BitsHeap (properties, coverage) and dump its state graph; -> (run, run2, dot path, needed actions)"""
+    r = tlc.run("BitsHeap", cfg_text=heap_cfg(*cfgargs), coverage=True, timeout=3600, workers=4)
+    pref = os.path.join(scratch_dir, "bitsheap_%s" % tag)
+    r2 = tlc.run("BitsHeap", cfg_text=heap_cfg(*cfgargs, props=False), dump=pref, workers=1, timeout=3600)
+    path = pref + ".dot" if os.path.exists(pref + ".dot") else pref
+    need = [a for a in HEAP_ACTIONS if a != "Concat" or 2 * min(cfgargs[1]) <= cfgargs[2]]
+    return r, r2, path, need
+
+
+def heap_walk(res, fut, max_viol=6):
+    """spec -> code: ONE continuous walk on real objects that takes every transition of the complete state
+    graph of BitsHeap at least once; all objects are compared after every call."""
+    r, r2, path, need = fut
+    res.add_tlc(r)
+    res.add_tlc(r2)
+    if r.violated:
+        res.violation("model:heap:%s" % sorted(r.violated), "BitsHeap.tla itself violates %s" % r.violated, r.out[-3000:])
+        return
+    if not r.ok or not r2.ok:
+        raise MachineryError("TLC failed on BitsHeap: %s %s\n%s" % (r.errors, r2.errors, (r.out + r2.out)[-2500:]))
+    for a in need:
+        if r.coverage.get(a, (0, 0))[1] == 0:
+            raise MachineryError("action %s never taken in the BitsHeap model (vacuous)" % a)
+    if not os.path.exists(path):
+        raise MachineryError("TLC wrote no state graph for BitsHeap:\n%s" % r2.out[-2000:])
+    states, init, edges = tlc.parse_dot(path)
+    os.unlink(path)
+    heaps = {sid: _tuple_to_list(st["heap"]) for sid, st in states.items()}
+    calls = {}                                        # sid -> {(name, args) -> [(raises, dst)]}
+    for (s_, d, name, args) in edges:
+        calls.setdefault(s_, {}).setdefault((name, tuple(args[:-1])), []).append((bool(args[-1]), d))
+    (cur,) = tuple(init)
+    todo = {s_: set(c) for s_, c in calls.items()}
+    ntodo = sum(len(c) for c in todo.values())
+    total = ntodo
+    real = HeapReal(heaps[cur])
+    steps = nviol = 0
+    names = set()
+
+    def route(frm):
+        """first call of a shortest path from frm to a state with an untaken call"""
+        seen, q = {frm: None}, [frm]
+        for x in q:
+            if todo.get(x):
+                while seen[x][0] != frm:
+                    x = seen[x][0]
+                return seen[x][1]
+            for c, ds in calls.get(x, {}).items():
+                for (_, d) in ds:
+                    if d not in seen:
+                        seen[d] = (x, c)
+                        q.append(d)
+        return None
+
+    while ntodo:
+        if todo.get(cur):
+            c = min(todo[cur])
+        else:
+            c = route(cur)
+            if c is None:                             # the untaken calls are unreachable from here: jump
+                cur = next(s_ for s_ in todo if todo[s_])
+                real.reset(heaps[cur])
+                continue
+        if c in todo.get(cur, ()):
+            todo[cur].discard(c)
+            ntodo -= 1
+        name, args = c
+        names.add(name)
+        raised, alias, got, e = real.step(name, args)
+        steps += 1
+        dst = [d for (rz, d) in calls[cur][c] if rz == raised and _same_heap(heaps[d], got)]
+        if dst and not alias:
+            cur = dst[0]
+            continue
+        nviol += 1
+        _heap_violation(res, name, args, heaps[cur], [(rz, heaps[d]) for rz, d in calls[cur][c]], raised, alias, got, e,
+                        "walk over the state graph of BitsHeap, step %d" % steps)
+        if nviol >= max_viol:
+            res.note("heap_walk_aborted_after_violations", nviol)
+            break
+        cur = dst[0] if dst else calls[cur][c][0][1]
+        real.reset(heaps[cur])                        # resynchronise on fresh objects
+    res.add_evals(steps)
+    res.count("spec_to_code_transitions_replayed", steps)
+    for s_ in states:
+        res.distinct(("heap-state", json.dumps(heaps[s_])))
+    res.note("heap_state_graph", {"states": len(states), "edges": len(edges), "distinct_calls": total,
+                                  "walk_steps": steps, "actions": sorted(names)})
+    # canary: a perturbed expectation must not be matched
+    (c0, ds0) = next(iter(calls[next(iter(init))].items()))
+    hr = HeapReal(heaps[next(iter(init))])
+    _, _, got, _ = hr.step(*c0)
+    bad = copy.deepcopy(got)
+    bad[0]["d"][0] ^= 1
+    if any(_same_heap(heaps[d], bad) for _, d in ds0) or not any(_same_heap(heaps[d], got) for _, d in ds0):
+        raise MachineryError("heap walk canary: a perturbed heap was accepted")
+    res.count("canaries_rejected", 1)
+
+
+def heap_sim_tlc(cfgargs, num, depth, sd):
+    return tlc.simulate_traces("BitsHeap", cfg_text=heap_cfg(*cfgargs, props=False, view=False), num=num, depth=depth,
+                               sd=sd)
+
+
+def heap_simulate(res, futs, max_viol=6):
+    """spec -> code: `-simulate` behaviours of a larger BitsHeap configuration replayed from Init on real
+    objects (all objects compared after every action)."""
+    nb = nsteps = nviol = 0
+    acts = {}
+    for fu in futs:
+        r, behs = fu.result() if hasattr(fu, "result") else fu
+        res.add_tlc(r)
+        if not behs:
+            raise MachineryError("TLC -simulate produced no behaviour of BitsHeap:\n%s" % r.out[-2000:])
+        for beh in behs:
+            nb += 1
+            heap = _tuple_to_list(beh[0][2]["heap"])
+            real = HeapReal(heap, nb)
+            for k, (name, args, st) in enumerate(beh[1:]):
+                exp = _tuple_to_list(st["heap"])
+                want_raise = bool(args[-1])
+                raised, alias, got, e = real.step(name, tuple(args[:-1]))
+                nsteps += 1
+                acts[name] = acts.get(name, 0) + 1
+                if raised == want_raise and not alias and _same_heap(exp, got):
+                    heap = exp
+                    continue
+                nviol += 1
+                if nviol <= max_viol:
+                    _heap_violation(res, name, tuple(args[:-1]), heap, [(want_raise, exp)], raised, alias, got, e,
+                                    "TLC -simulate behaviour %d, step %d" % (nb, k + 1))
+                heap = exp
+                real.reset(heap)
+            res.distinct(("heap-behaviour", nb, len(beh)))
+    for a in HEAP_ACTIONS:
+        if not acts.get(a):
+            raise MachineryError("action %s does not occur in the simulated BitsHeap behaviours" % a)
+    res.add_evals(nsteps)
+    res.count("spec_to_code_transitions_replayed", nsteps)
+    res.note("heap_simulation", {"behaviours": nb, "steps": nsteps, "steps_by_action": dict(sorted(acts.items()))})
+
+
+def heap_canaries(res, traces, pool, tmp):
+    """Corrupted copies of accepted heap traces must be rejected with the clause of the object-identity rules."""
+    can = []
+
+    def cut(t, j):
+        c = copy.deepcopy(t)
+        c["ev"] = c["ev"][:j + 1]
+        return c
+    for t in traces:
+        kinds = {k for k, _ in can}
+        for j, e in enumerate(t["ev"]):
+            if "heap" not in e or _maybe_open(e) or len(e["heap"]) < 2:
+                continue
+            ch = e.get("rid") or (e.get("tgt", 1) if e["op"] in MUTATORS else 0)
+            other = [i for i in range(len(e["heap"])) if i + 1 != ch]
+            if "frame" not in kinds and e["out"]["k"] != "err" and other and ch:
+                c = cut(t, j)                         # another object changed as well
+                c["ev"][j]["heap"][other[-1]]["d"][0] ^= 1
+                can.append(("frame", c))
+                break
+            if "alias" not in kinds and e.get("rid") and e["op"] != "new":
+                c = cut(t, j)                         # the result is an existing object
+                c["ev"][j]["alias"] = other[0] + 1
+                can.append(("alias", c))
+                break
+            if "operand" not in kinds and e["op"] in BINOPS and e["out"]["k"] == "ok" and not e.get("rid") \
+                    and e["args"][0].get("k") == "obj":
+                c = cut(t, j)                         # a pure operator modified its operand
+                c["ev"][j]["heap"][e["args"][0]["id"] - 1]["d"][0] ^= 1
+                can.append(("operand", c))
+                break
+            if "stale" not in kinds and e.get("rid") and e["op"] in BINOPS and e["out"]["k"] == "ok":
+                c = cut(t, j)                         # the bound object does not hold the result
+                c["ev"][j]["heap"][e["rid"] - 1]["d"][0] ^= 1
+                can.append(("stale", c))
+                break
+            if "err-changes" not in kinds and e["out"]["k"] == "err" and e["op"] in MUTATORS and e["op"] != "new":
+                c = cut(t, j)                         # a raising mutator changed its object
+                c["ev"][j]["heap"][e.get("tgt", 1) - 1]["d"][0] ^= 1
+                can.append(("err-changes", c))
+                break
+        if len(can) >= 5:
+            break
+    want = {"frame": "changed-another-object", "alias": "result-aliases-live-object",
+            "operand": "changed-another-object", "stale": "post-state-mismatch", "err-changes": "post-state-mismatch"}
+    if {k for k, _ in can} != set(want):
+        raise MachineryError("could not build every heap canary: have %s" % sorted(k for k, _ in can))
+    _, verdicts = _validate_once([c for _, c in can], pool, tmp, coverage_first=False)
+    bad = [(k, v[0]) for (k, _), v in zip(can, verdicts) if v[0] != want[k]]
+    if bad:
+        raise MachineryError("heap canary traces not rejected with the expected clause: %s" % bad)
+    res.count("canaries_rejected", len(can))
+    res.note("heap_canary_clauses", {k: want[k] for k, _ in can})
+
+
+# --------------------------------------------------------------------------------------
 # code -> spec: trace validation
 # --------------------------------------------------------------------------------------
 
 class Recorder:
-    """Drives one tracked object and logs every call as an event of BitsObjTrace."""
+    """Drives real objects and logs every call as an event of BitsObjTrace.
 
-    def __init__(self, w0, style):
+    Single-object use (C05, part of C04): `call(op, args, refl)` with operands `{"k": "self"}` or literals;
+    only the tracked object (variable 1) is observed after each call.
+    Heap use (`heap=True`): several program variables, each bound to the very object a real operation
+    returned.  `call(..., rid=k)` binds variable k (1 .. number of variables + 1) to the Bits object a pure
+    call / the constructor returned, `call(..., tgt=k)` applies a mutator to the object of variable k, operands
+    `obj(k)` name the object of variable k.  After EVERY call all objects are observed (`heap`), and the
+    returned object is compared by identity with every live object (`alias`)."""
+
+    def __init__(self, w0, style, heap=False):
         self.env = Env(style, api().make(style, w0, 0) if style != "Bits" else api().Bits(w0))
         self.w0 = w0
         self.ev = []
+        self.heap = heap
+        self.origin = {1: "Bits(%d)" % w0}      # variable -> text of the call that produced its object
 
     @property
     def obj(self):
         return self.env.obj
 
-    def call(self, op, args, refl=False):
-        out = execute(self.env, op, refl, args)
+    @property
+    def nvars(self):
+        return len(self.env.vars)
+
+    def var(self, i):
+        return self.env.vars[i - 1]
+
+    def obj_arg(self, i):
+        """operand naming the object of variable i (width / value annotated for messages and keys only)"""
+        o = self.env.vars[i - 1]
+        return {"k": "obj", "id": i, "w": o.nbits, "v": hex(int(o))}
+
+    def call(self, op, args, refl=False, rid=0, tgt=1, ip=False):
+        env = self.env
+        env.tgt = (rid or 1) if op == "new" else tgt
+        out = execute(env, op, refl, args, ip)
         e = {"op": op, "refl": bool(refl), "args": args}
         if op == "divmod":
             e["out"], e["out2"] = out
         else:
             e["out"] = out
-        e["post"] = observe(self.env.obj)
+        if ip:
+            e["ip"] = True
+        if op in MUTATORS and op != "new" and (self.heap or tgt != 1):
+            e["tgt"] = tgt
+        raw = env.last
+        if op == "new":
+            if rid:
+                e["rid"] = rid
+            if raw is not None:
+                self.origin[rid or 1] = call_text(op, refl, args)
+        elif raw is not None and (self.heap or rid):
+            # identity of the returned object against every live object (operands included)
+            alias = 0
+            for i, o in enumerate(env.vars):
+                if o is raw:
+                    alias = i + 1
+                    break
+            if alias:
+                e["alias"] = alias
+                e["alias_origin"] = self.origin.get(alias, "?")
+                raw = api().make(env.style, raw.nbits, int(raw))      # repair: continue with a private copy
+            if rid:
+                if out.get("k") != "ok":
+                    raise MachineryError("cannot bind variable %d to a non-Bits result of %s" % (rid, op))
+                env.bind(rid, raw)
+                e["rid"] = rid
+                self.origin[rid] = call_text(op, refl, args, ip=ip)
+        elif rid:
+            pass                                    # the call raised / returned no Bits: nothing is bound
+        e["post"] = observe(env.vars[0])
+        if self.heap:
+            e["heap"] = [e["post"]] + [observe(o) for o in env.vars[1:]]
         self.ev.append(e)
         return e
 
     def trace(self):
         return {"w0": self.w0, "ev": self.ev}
+
+
+def obj_value(a):
+    """integer value annotated on an `obj` operand"""
+    return int(a["v"], 16)
 
 
 def _run_trace_chunk(path, coverage):
@@ -661,8 +1104,9 @@ def _run_trace_chunk(path, coverage):
 
 def _trace_cost(t):
     """rough TLC cost of a trace: events weighted by operand size"""
-    w = t.get("w0", 64) if "init" not in t else t["init"]["w"]
-    return len(t["ev"]) * (1.0 + w / 256.0) + 5 * sum(1 for e in t["ev"] if e["op"] in ("mod", "floordiv") and w > 200)
+    w = t["init_heap"][0]["w"] if "init_heap" in t else t.get("w0", 64) if "init" not in t else t["init"]["w"]
+    nh = len(t["ev"][-1].get("heap", ())) if t["ev"] else 0
+    return len(t["ev"]) * (1.0 + w / 256.0) * (1.0 + nh / 4.0) + 5 * sum(1 for e in t["ev"] if e["op"] in ("mod", "floordiv") and w > 200)
 
 
 def _validate_once(traces, pool, tmp, coverage_first=True):
@@ -707,11 +1151,13 @@ def _validate_once(traces, pool, tmp, coverage_first=True):
 TRACE_ACTIONS = ("BinEv", "DivModEv", "UnaryEv", "ReadEv", "HelperEv", "Clog2Ev", "NewEv", "AssignEv", "SetEv")
 
 
-def validate(res, traces, pool, tmp, need_actions=(), label="trace", max_rounds=40, report=True):
+def validate(res, traces, pool, tmp, need_actions=(), label="trace", max_rounds=40, report=True, max_per_trace=None):
     """Validate traces with BitsObjTrace.  A rejected trace is reported and its remainder is
-    resubmitted starting from the observed state, so one defect does not hide later events.
+    resubmitted starting from the observed state, so one defect does not hide later events
+    (at most max_per_trace rejections per trace if given).
     Returns list of (trace index, event index, clause, event)."""
     found = []
+    nfound = {}
     pending = [(i, 0, t) for i, t in enumerate(traces)]      # (orig index, offset, trace)
     cov = {}
     rounds = 0
@@ -729,19 +1175,22 @@ def validate(res, traces, pool, tmp, need_actions=(), label="trace", max_rounds=
             if err == "ok":
                 continue
             e = t["ev"][pos - 1]
+            if err.startswith("bad-trace"):
+                raise MachineryError("the harness logged an ill-formed trace (%s, %s %d event %d): %s"
+                                     % (err, label, oi, off + pos - 1, json.dumps(e)[:500]))
             found.append((oi, off + pos - 1, err, e))
+            nfound[oi] = nfound.get(oi, 0) + 1
             rest = t["ev"][pos:]
-            if rest:
+            if max_per_trace is not None and nfound[oi] >= max_per_trace:
+                rest = []
+            if rest and "heap" in e:
+                nxt.append((oi, off + pos, {"w0": e["post"]["w"], "init_heap": e["heap"], "ev": rest}))
+            elif rest:
                 nxt.append((oi, off + pos, {"w0": e["post"]["w"], "init": e["post"], "ev": rest}))
         pending = nxt
     if report:
         for (oi, ei, clause, e) in found:
-            selfw = e["post"]["w"]
-            key = violation_key(e["op"], e["refl"], e["args"], clause, e["out"], selfw)
-            res.violation(key, "%s: pymtl3 %s%s; rejected by BitsObjTrace with clause %s [%s %d, event %d]"
-                          % (call_text(e["op"], e["refl"], e["args"]), show(e["out"]),
-                             (" and " + show(e["out2"])) if "out2" in e else "", clause, label, oi, ei),
-                          {"event": e, "clause": clause, "trace": oi, "index": ei})
+            report_trace_violation(res, traces[oi], oi, ei, clause, e, label)
     for a in need_actions:
         if cov.get(a, 0) == 0:
             raise MachineryError("trace action %s never taken (vacuous coverage): %s" % (a, cov))
@@ -749,6 +1198,38 @@ def validate(res, traces, pool, tmp, need_actions=(), label="trace", max_rounds=
     res.add_evals(sum(len(t["ev"]) for t in traces))
     res.note("trace_validation_rounds:" + label, rounds)
     return found
+
+
+def report_trace_violation(res, trace, oi, ei, clause, e, label):
+    """One rejected event of a validated trace -> res.violation with a stable key and a readable history."""
+    tgt = e.get("tgt", 1)
+    selfw = e["heap"][tgt - 1]["w"] if "heap" in e and tgt <= len(e["heap"]) else e["post"]["w"]
+    key = violation_key(e["op"], e["refl"], e["args"], clause, e["out"], selfw)
+    text = call_text(e["op"], e["refl"], e["args"], tgt, e.get("ip", False))
+    what = "%s: pymtl3 %s%s" % (text, show(e["out"]), (" and " + show(e["out2"])) if "out2" in e else "")
+    detail = {"event": e, "clause": clause, "trace": oi, "index": ei}
+    if clause == "result-aliases-live-object":
+        what += ("; the returned object IS the live object of variable v%d (made by `%s`): a result must be a new "
+                 "object, Bits objects are mutable in place" % (e["alias"], e.get("alias_origin", "?")))
+    elif clause == "changed-another-object" and "heap" in e and ei > 0 and "heap" in trace["ev"][ei - 1]:
+        before = trace["ev"][ei - 1]["heap"]
+        ch = [i + 1 for i, (a, b) in enumerate(zip(before, e["heap"])) if not same_state(a, b)
+              and i + 1 != (e.get("rid") or (tgt if e["op"] in MUTATORS else 0))]
+        what += "; it also changed the object(s) of %s, which the call does not own" % \
+                ", ".join("v%d (%s -> %s)" % (i, show(before[i - 1]), show(e["heap"][i - 1])) for i in ch)
+    elif clause == "post-state-mismatch" and "heap" in e:
+        what += "; afterwards the object holds %s" % show(e["heap"][(e.get("rid") or tgt) - 1])
+    if "heap" in e:
+        # the calls that produced / last modified the operands: enough history to read the violation
+        hist = []
+        for k in range(max(0, ei - 6), ei):
+            p = trace["ev"][k]
+            hist.append("%s%s -> %s" % (("v%d = " % p["rid"]) if p.get("rid") else "",
+                                        call_text(p["op"], p["refl"], p["args"], p.get("tgt", 1), p.get("ip", False)),
+                                        show(p["out"])))
+        detail["preceding_calls"] = hist
+    res.violation(key, "%s; rejected by BitsObjTrace with clause %s [%s %d, event %d]" % (what, clause, label, oi, ei),
+                  detail)
 
 
 def _maybe_open(e):
@@ -761,6 +1242,8 @@ def _maybe_open(e):
         return sw if o.get("k") == "self" else o["w"]
 
     def value(o):
+        if o.get("k") == "obj":
+            return obj_value(o)
         return unlimbs(e["post"]["d"]) if o.get("k") == "self" else dec_value(o)
     if op in ("lshift", "rshift"):
         return e["refl"] or (a[1]["k"] != "int" and width(a[1]) != width(a[0])) or \
@@ -779,7 +1262,7 @@ def _maybe_open(e):
         return True
     if op in ("setbit", "setslice"):
         v = a[-1]
-        return v.get("k") in ("bits", "self") or v.get("neg", False)
+        return v.get("k") in ("bits", "self", "obj") or v.get("neg", False)
     return False
 
 
@@ -817,6 +1300,8 @@ def canaries(res, traces, pool, tmp, limit=60):
                 c = copy.deepcopy(t)
                 c["ev"] = c["ev"][:j + 1]
                 c["ev"][j]["post"]["d"][-1] ^= 1
+                if "heap" in c["ev"][j]:
+                    c["ev"][j]["heap"][0]["d"][-1] ^= 1
             elif mode == 4 and k == "ok" and e["op"] not in ("divmod",):            # a result replaced by an exception
                 c = copy.deepcopy(t)
                 c["ev"] = c["ev"][:j + 1]
